@@ -404,3 +404,7 @@ def run(chk, facts, tier):
     c11_record.check(chk, facts)
     from rules import c11_scope
     c11_scope.check(chk, facts)
+    # "this holds equally through every entry point": the str / value / file forms of an entry point do the same work
+    facts.load_crate("cedar_policy.lib")
+    from rules import shared_forms
+    shared_forms.check(chk, facts, "C11.SIBLING.forms", ["cedar_policy::api::", "cedar_policy_core::entities::", "cedar_policy_core::ast::"], 16)
